@@ -37,7 +37,7 @@ var c20Plants = []string{
 	"local o%d = (%v or true)", "if %v or true then end",
 	// 19 repeated if condition
 	"if %v then elseif %v then end", "if %v == 1 then elseif %v == 2 then end", "if %v == 1 then elseif %v == 1 then end", "if f(1) then elseif f(1) then end",
-	"if %v then elseif not %v then end", "if %v.a then elseif %v.a then else end",
+	"if %v then elseif not %v then end", "if %v.a then elseif %v.a then else end", "if nil then elseif nil then end", "if true then elseif true then end", "if 1 then elseif 1 then end", "if \"s\" then elseif \"s\" then end", "if ... then elseif ... then end",
 	"if M:m1() then elseif M:m2() then end", "if M:m1() then elseif M:m1() then end", "if M.m1() then elseif M.m2() then end", "if M:m1(%v) then elseif M:m1(%v) then end",
 	"if M:m1() then elseif M.m1() then end", "if M.a:m1(1) then elseif M.b:m1(1) then end", "if %v:m1() then elseif %v:m1() then end", "if f(%v) then elseif f(%v, 1) then end",
 	"if %v then elseif vc then elseif %v then end", "if f{1} then elseif f{1} then end", "if f\"s\" then elseif f\"s\" then end",
